@@ -8,6 +8,13 @@ import registry
 NA_FIXED = {
 }
 ALL = ["C%02d" % i for i in range(1, 21)]
+_BIT = "static analysis: bit-level abstract interpretation (forward dataflow over symbolic bits) of the accessors' MIR + custom rules over type-checked HIR / MIR (rustc_private driver)"
+TECH = {
+    "C18": _BIT, "C04": _BIT, "C08": _BIT + "; MIR typestate dataflow", "C09": _BIT, "C07": _BIT + "; decision-table extraction from HIR",
+    "C05": "static analysis: decision-table extraction from type-checked HIR over finite abstract domains, MIR dominance (rustc_private driver)",
+    "C02": "static analysis: MIR liveness / borrow summaries, HIR may-analyses (producer/consumer variant agreement), CFG dominance (rustc_private driver)",
+    "C01": "static analysis: effect analysis over the resolved call graph, unordered-iteration escape analysis (rustc_private driver)",
+}
 
 checks = []
 for pid in ALL:
@@ -28,7 +35,7 @@ for pid in ALL:
             "design_ref": "DESIGN.md §3 " + pid,
         },
         "level_note": "Does not decide: " + m.get("does_not_decide", "") + " Trusted base: rustc nightly front end, /verif/driver serialisation, /verif/rules. Assumes: " + "; ".join(m.get("assumptions", [])),
-        "technique": m.get("technique", "static analysis: custom rules over type-checked HIR / MIR (rustc_private driver)"),
+        "technique": m.get("technique", TECH.get(pid, "static analysis: custom rules over type-checked HIR / MIR (rustc_private driver)")),
     })
 
 na = []
